@@ -43,9 +43,20 @@ def succDay (dt : Date) : Date :=
   else if dt.m < 12 then { y := dt.y, m := dt.m + 1, d := 1 }
   else { y := dt.y + 1, m := 1, d := 1 }
 
+/-- the characters Python's `str.strip()` removes (`str.isspace`): ASCII blanks and separators, NEL, NBSP and the
+Unicode space separators -/
+def pyIsSpace (c : Char) : Bool :=
+  let n := c.toNat
+  (9 ≤ n && n ≤ 13) || (28 ≤ n && n ≤ 32) || n == 0x85 || n == 0xA0 || n == 0x1680 || (0x2000 ≤ n && n ≤ 0x200A) ||
+  n == 0x2028 || n == 0x2029 || n == 0x202F || n == 0x205F || n == 0x3000
+
+/-- `str.strip()` -/
+def pyStrip (s : String) : String :=
+  String.ofList ((s.toList.dropWhile pyIsSpace).reverse.dropWhile pyIsSpace).reverse
+
 /-- strict `YYYY/MM/DD` token (surrounding blanks allowed, as produced by splitting a range). -/
 def parseDate (tok : String) : Option Date :=
-  match (tok.trimAscii.toString).splitOn "/" with
+  match (pyStrip tok).splitOn "/" with
   | [ys, ms, ds] =>
     if ys.length == 4 && ms.length == 2 && ds.length == 2 &&
         ys.all Char.isDigit && ms.all Char.isDigit && ds.all Char.isDigit then   -- `toNat?` alone would also read "20_0"
